@@ -15,6 +15,7 @@ import (
 
 	"github.com/gr33nbl00d/caddy-revocation-validator/config"
 	"github.com/gr33nbl00d/caddy-revocation-validator/core"
+	"github.com/gr33nbl00d/caddy-revocation-validator/crl"
 	"github.com/gr33nbl00d/caddy-revocation-validator/crl/crlrepository"
 	"github.com/gr33nbl00d/caddy-revocation-validator/crl/crlstore"
 
@@ -384,6 +385,147 @@ func c04Supported(a world.SigAlg) bool {
 	return false
 }
 
+// c04Layers: the same question asked one and two layers further up, where the set of signer candidates is put
+// together. (a) two validator instances of one process with different trusted signer sets, provisioned in both
+// orders: what one instance was configured to trust entitles nobody at the other. (b) the whole module: certificates
+// a client merely sends along in its Certificate message (part of no verified chain) entitle nobody.
+func c04Layers(chk *fw.Check) (evals, nontrivial int, outcomes map[string]int) {
+	outcomes = map[string]int{}
+	sgs := c04Signers()
+	idx := func(name string) int {
+		for i, s := range sgs {
+			if s.Name == name {
+				return i
+			}
+		}
+		panic(name)
+	}
+	for _, disk := range []bool{false, true} {
+		for _, sn := range []string{"trusted-signer", "other-CA-configured-as-trusted-signer", "trusted-signer-whose-name-renders-like-the-issuers"} {
+			for _, akiName := range []string{"absent", "keyId=signer-SKI", "keyId"} {
+				for _, order := range []string{"trusting-instance-first", "trusting-instance-last"} {
+					aki := 0
+					for i, a := range c04AKIForms {
+						if a == akiName {
+							aki = i
+						}
+					}
+					c := c04Case{Alg: world.SHA256EC, Signer: idx(sn), AKI: aki, Path: "first-load", Flip: -1}
+					doc, leaf, chain, trusted, entitledWithTrust, _ := c04Doc(c)
+					var vT, vN Verdict
+					var perr string
+					res := seqWorld(func() {
+						net := world.NewNet()
+						wT := NewCW(CWOpt{Disk: disk, SigMode: config.SignatureValidationModeVerify, Strict: true, Trusted: trusted, Net: net})
+						wN := NewCW(CWOpt{Disk: disk, SigMode: config.SignatureValidationModeVerify, Strict: true, Net: net})
+						defer os.RemoveAll(wT.Dir)
+						defer os.RemoveAll(wN.Dir)
+						ws := []*CW{wT, wN}
+						if order == "trusting-instance-last" {
+							ws = []*CW{wN, wT}
+						}
+						for _, w := range ws {
+							if err := w.Provision(); err != nil {
+								perr = err.Error()
+								return
+							}
+						}
+						vsched.Drain()
+						net.Serve(c04URL, "candidate", doc)
+						vN = wN.Lookup(leaf, chain)
+						vT = wT.Lookup(leaf, chain)
+						again := wN.Lookup(leaf, chain)
+						if again.String() != vN.String() {
+							vN = Verdict{Err: "the answer of the instance without trusted signers changed from " + vN.String() + " to " + again.String() + " after the other instance took the list in"}
+							if again.Revoked {
+								vN = again
+							}
+						}
+						wT.Chk.Cleanup()
+						wN.Chk.Cleanup()
+					})
+					evals++
+					nontrivial++
+					label := fmt.Sprintf("two-instances signer=%s aki=%s %s %s", sn, akiName, order, be(disk))
+					if perr != "" || res.Verdict != vsched.OK {
+						chk.Violation("C04|harness|two-instances", label+": "+perr+" "+res.Verdict.String()+" "+firstLines(res.Detail, 3), nil)
+						continue
+					}
+					outcomes[fmt.Sprintf("two-instances: trusting=%s other=%s entitled-at-trusting=%v", vT, vN, entitledWithTrust)]++
+					if vN.Revoked || (vN.Err == "" && vN.Panic == "") {
+						chk.Violation("C04|unauthentic-in-force|two-instances signer="+sn+" aki="+akiName,
+							fmt.Sprintf("%s: the instance which trusts no extra signer took in (verdict %s) a CRL only the other instance's trusted signer could authenticate", label, vN), c)
+					}
+					if entitledWithTrust && !vT.Revoked {
+						outcomes["two-instances: authentic at the trusting instance but not in force (not judged)"]++
+					}
+				}
+			}
+		}
+	}
+	// (b) module level: an extra certificate in the client's Certificate message
+	for _, disk := range []bool{false, true} {
+		for _, sn := range []string{"unrelated-key", "sibling-CA-same-DN", "stranger-configured-nowhere-in-chain-only"} {
+			for aki, akiName := range c04AKIForms {
+				c := c04Case{Alg: world.SHA256EC, Signer: idx(sn), AKI: aki, Path: "first-load", Flip: -1}
+				doc, _, chain, _, _, _ := c04Doc(c)
+				// the identity which signed the candidate list
+				_, _, _, signer := sgs[c.Signer].Make("ec")
+				for _, pos := range []string{"extra-last", "extra-second"} {
+					var v, plain Verdict
+					var perr string
+					res := seqWorld(func() {
+						net := world.NewNet()
+						dir := FreshDir("c04tw")
+						defer os.RemoveAll(dir)
+						storage := "memory"
+						if disk {
+							storage = "disk"
+						}
+						w := NewTW(TWOpt{Mode: "crl_only", Net: net, CRL: &config.CRLConfig{WorkDir: dir, StorageType: storage, SignatureValidationMode: "verify", UpdateInterval: "30m",
+							CDPConfig: &config.CDPConfig{CRLCDPStrict: true}}})
+						if err := w.Provision(); err != nil {
+							perr = err.Error()
+							return
+						}
+						vsched.Drain()
+						net.Serve(c04URL, "candidate", doc)
+						var raw [][]byte
+						for _, x := range chain[0] {
+							raw = append(raw, x.Raw)
+						}
+						if pos == "extra-last" {
+							raw = append(raw, signer.Cert.Raw)
+						} else {
+							raw = append(raw[:1:1], append([][]byte{signer.Cert.Raw}, raw[1:]...)...)
+						}
+						v = w.HandshakeRaw(raw, chain)
+						plain = w.Handshake(chain)
+						w.Cleanup()
+						vsched.Drain()
+						crl.VerifReset()
+					})
+					evals++
+					nontrivial++
+					label := fmt.Sprintf("module signer=%s aki=%s %s %s", sn, akiName, pos, be(disk))
+					if perr != "" || res.Verdict != vsched.OK {
+						chk.Violation("C04|harness|module-extra-certificate", label+": "+perr+" "+res.Verdict.String()+" "+firstLines(res.Detail, 3), nil)
+						continue
+					}
+					outcomes[fmt.Sprintf("module, signer sent along: %s then %s", v, plain)]++
+					for _, x := range []Verdict{v, plain} {
+						if x.Revoked || (x.Err == "" && x.Panic == "") {
+							chk.Violation("C04|unauthentic-in-force|module-extra-certificate signer="+sn+" aki="+akiName,
+								fmt.Sprintf("%s: a CRL signed by a certificate which the client merely sent along (part of no verified chain) came into force (verdict %s)", label, x), c)
+						}
+					}
+				}
+			}
+		}
+	}
+	return
+}
+
 // RunC04 is the entry point of the C04 check.
 func RunC04(tier string, args []string) int {
 	chk := fw.NewCheck("C04", tier, "exploration")
@@ -501,6 +643,9 @@ func RunC04(tier string, args []string) int {
 			flips++
 		}
 	}
+	layerEvals, layerNontrivial, layerOutcomes := c04Layers(chk)
+	evals += layerEvals
+	_ = layerNontrivial
 	if len(samples) == 0 {
 		samples = []string{c04Case{Alg: world.SHA256EC, Signer: 3, AKI: 0, Path: "refresh", Flip: -1}.String(), c04Case{Alg: world.SHA256RSA, Signer: 0, AKI: 1, Path: "first-load", Flip: 1234}.String()}
 	}
@@ -514,6 +659,9 @@ func RunC04(tier string, args []string) int {
 		"authentic_accepted":            complete,
 		"authentic_rejected_not_judged": incomplete,
 		"outcome_classes":               outcomes.Counts(),
+		"layers":                        "two validator instances with different trusted signer sets (3 signer kinds x 3 AKI forms x provisioning order x backend): the instance without the signer must not take the list in; whole module with a signer certificate merely sent along in the handshake (3 signer kinds x 8 AKI forms x position x backend)",
+		"layer_evaluations":             layerEvals,
+		"layer_outcomes":                layerOutcomes,
 		"exhaustive":                    true,
 	}
 	return chk.Finish(cov)
